@@ -216,7 +216,7 @@ let () =
         let p = str_ p in
         let r = M.c19_generate_c f fl p in
         let ok = M.c19_generate_c_ok f fl p (obs_ o) in
-        let kfs = if M.c19_kf_cfile_prevalidated f fl p then [Atom "C19-8"] else [] in
+        let kfs = [] in
         let spec = match M.c19_fs_get f p with
           | Some (M.NDoc (Some d)) -> List [of_eff (M.c19_spec_eff_c fl d)] | _ -> List [] in
         List [of_result f r; spec; of_bool ok; List kfs]
